@@ -54,6 +54,7 @@ REAL = Prim("real", R)
 STR = Prim("str", Z)  # opaque string ids
 OBJ = Prim("obj", Z)  # opaque object ids (typing.Any); 0 is None
 BYTES = Prim("bytes", z3.StringSort())
+OPTINT = Prim("optint", Z)  # `int | None` where the int is known to be >= 0: None is encoded as -1
 
 
 class RefT(Ty):
